@@ -18,7 +18,7 @@ VERBOSITY = False  # stdout of verify -dh -co is parsed / runs must be identical
 TECHNIQUE = 'runtime monitoring: kill-point enumeration (os._exit before each recorded file-system event / half-applied writes in a forked child; real SIGKILL via strace inject on a sample) with state oracle and follow-up commands'
 LEVEL = "fault_enumeration"
 RULE = (
-    "scenario = history with 0/1/2/5 prior generations, flat or with 1-2 nested histories, then an interrupted create (folder "
+    "scenario = history with 0/1/2/5 prior generations, flat or with 1-2 nested histories (12 % with folder names of 223-227 bytes), then an interrupted create (folder "
     "mode or -sf); crash points = every event of the recorded event list (before it is applied) plus every write event cut "
     "after half of its bytes; each crash state is followed by info, verify, create; quick samples at most 90 points per "
     "scenario (all non-write events kept), thorough enumerates all; class = (event kind, file role, cut mode, prior generations)"
